@@ -383,7 +383,54 @@ def eval_context(case):
     return out
 
 
-EVALS = {"interop": eval_interop, "fresh": eval_fresh, "identify": eval_identify, "context": eval_context}
+FAR_COSTS = {"sha": (1000, 9999, 99_999_999, 100_000_000, 535_000_000, 999_999_999), "pbkdf2": (1, 9, 99_999_999, 100_000_000, 4294967295),
+             "bcrypt": (4, 9, 10, 31)}
+
+
+def eval_farcost(case):
+    """costs up to the far end of the format's range, judged on well-formed STRINGS (no digest is computed): the
+    libpass hasher identifies the string, its update check is False exactly for its own cost, the libpass context
+    agrees, and passlib identifies the same string"""
+    from libpass.context import CryptContext
+
+    fmt, cost = case["fmt"], case["cost"]
+    k = KIND[fmt]
+    base = sample_hashes(fmt, "passlib", PW, case.get("seed", 0))
+    if k == "sha":
+        parts = base.split("$")
+        s = "$".join(parts[:2] + [f"rounds={cost}"] + parts[-2:])
+    elif k == "pbkdf2":
+        parts = base.split("$")
+        parts[2] = str(cost)
+        s = "$".join(parts)
+    elif fmt == "bcrypt":
+        s = base[:4] + f"{cost:02d}" + base[6:]
+    else:
+        parts = base.split("$")
+        parts[2] = ",".join(f"r={cost}" if x.startswith("r=") else x for x in parts[2].split(","))
+        s = "$".join(parts)
+    out = []
+    key = f"C20|{fmt}|farcost:"
+    for form, arg in (("str", s), ("bytes", s.encode("ascii"))):
+        try:
+            if HS.handler(fmt).identify(arg) is not True:
+                return []  # (not a string passlib recognises: nothing to compare)
+            lp = lp_hasher(fmt, cost)
+            if lp.identify(arg) is not True:
+                out.append((key + f"identify:own_format_rejected:{form}", f"libpass {fmt} hasher does not identify the well-formed string {arg!r} (cost {cost})"))
+            if lp.needs_update(arg) is not False:
+                out.append((key + f"needs_update:own_cost:true:{form}", f"libpass {fmt}(cost {cost}).needs_update({arg!r}) is not False"))
+            other = lp_hasher(fmt, BASE_ROUNDS[k] if cost != BASE_ROUNDS[k] else BASE_ROUNDS[k] + 1)
+            if other.needs_update(arg) is not True:
+                out.append((key + f"needs_update:other_cost:false:{form}", f"libpass {fmt}(another cost).needs_update({arg!r}) is not True"))
+            if form == "str" and CryptContext([lp]).needs_update(arg) is not False:
+                out.append((key + "context:needs_update:first_format:true", f"libpass CryptContext([{fmt}]).needs_update({arg!r}) is not False"))
+        except Exception as e:  # noqa: BLE001
+            out.append((key + f"raises:{_exc(e)}:{form}", f"{fmt} cost {cost} ({arg!r}): raised {e!r}"))
+    return out
+
+
+EVALS = {"interop": eval_interop, "fresh": eval_fresh, "identify": eval_identify, "context": eval_context, "farcost": eval_farcost}
 
 
 def replay(case):
@@ -507,6 +554,8 @@ def work(task):
         elif part == "identify":
             acc.cls(part, case["fmt"], case["scheme"], case["n"])
             acc.axis("identify_scheme", case["scheme"])
+        elif part == "farcost":
+            acc.cls(part, case["fmt"], case["cost"])
         else:
             acc.cls(part, ">".join(case["schemes"]))
             acc.axis("context_size", len(case["schemes"]))
@@ -556,6 +605,9 @@ def run(ctx):
         for lst in itertools.permutations(FORMATS, n):
             cases.append({"part": "context", "schemes": list(lst), "seed": seed})
             n_ctx += 1
+    for f in FORMATS:
+        for cost in FAR_COSTS[KIND[f]]:
+            cases.append({"part": "farcost", "fmt": f, "cost": cost, "seed": seed})
     # lists naming the same format twice (two costs of one format; with and without another format in between)
     for f in FORMATS:
         g = FORMATS[(FORMATS.index(f) + 1) % len(FORMATS)]
